@@ -47,7 +47,12 @@ SPEC = dict(
          "payload set is enumerated in both tiers with id=fresh on the stream entry in session phase; the id, entry and phase "
          "dimensions are complete for payloads the configuration's managers look at in the thorough tier and for the single-manager "
          "configurations, seeded otherwise; attribute spellings (absent vs empty, 8 garbage types, look-alike JIDs, ids needing XML "
-         "escaping) are seeded. Configurations: no extension; each of 31 bundled managers alone, also in their non-initial states "
+         "escaping) are seeded. Configurations: no extension; two application-style extensions (not bundled; new-style passing the "
+         "e2ee metadata on and old-style) that answer through the public helper QXmpp::handleIqRequests<>() in every documented way "
+         "that compiles — handler object with handleIq() overloads / callable; returning a fresh IQ of default type, the received IQ "
+         "itself (type get or set), an IQ typed result, an IQ typed error, a QXmppStanza::Error; as the IQ type or inside a "
+         "std::variant (the three QXmppTask ways are in the harness behind -DC08_HELPER_TASKS=1: with today's header they do not "
+         "compile, see fixes/C08-helper-task-result-forwarding.diff); each of 31 bundled managers alone, also in their non-initial states "
          "(blocking subscribed; transfer manager whose application accepts an offer with a writable device / with a device that is "
          "not writable / aborts it — in the fileReceived slot or, the offer pending in between, after the slot returned —, with an "
          "accepted job, with an opened job whose receiving device is good / fails / takes half a block, with a job finished by a "
@@ -61,8 +66,8 @@ SPEC = dict(
          "between the managers), number of IQ replies, per reply result | error type + defined condition / to / id / sent through "
          "the e2ee extension, other traffic, and the stream error, between the real client and the Lean model; a configuration is "
          "non-trivial when it yields >= 2 distinct observations. Oracle (model independent): get/set => exactly one IQ of type "
-         "result|error, `to` = the request's `from` (absent `to` only towards the own server), same id, no foreign `from`, a "
-         "result without <error/>, an error with exactly one <error/> carrying a valid type and exactly one defined condition; "
+         "result|error, `to` = the request's `from` (absent `to` only towards the own server), same id, no foreign `from`, an "
+         "error with exactly one <error/> carrying a valid type and exactly one defined condition; "
          "when no extension decided: cancel + feature-not-implemented|service-unavailable, and encrypted if the request was; "
          "result/error => no reply; before session establishment => no reply.",
     trusted_base=[
@@ -111,11 +116,14 @@ SPEC = dict(
     level_text="Theorems, all for a stanza with any number of children: (1) lifting lemma for EVERY extension list, session "
                "established: if each handler is good at the stanza, a get/set gets exactly one reply with the same id addressed "
                "to the sender (request_answered_once) and a result/error — awaited or not — gets none (response_never_answered); "
-               "(2) every bundled handler in every modelled state (41 rows) is good at every stanza (every_row_good), hence "
+               "(2) every bundled handler in every modelled state and the two application-style helper extensions (43 rows) is good at every stanza (every_row_good), hence "
                "C08_holds / C08_requests / C08_responses for every set, order and state of bundled managers, for the stream, "
                "injectIq and e2ee entries; (3) when no extension claims a get/set the one reply is error cancel/"
                "feature-not-implemented to the sender with the request's id, encrypted iff the request arrived decrypted "
-               "(unclaimed_request_gets_feature_not_implemented, unclaimed_request_bundled); (4) before the session is "
+               "(unclaimed_request_gets_feature_not_implemented, unclaimed_request_bundled); (3b) whatever object a handler hands to the "
+               "public helper handleIqRequests<>() — IQ of type get, set, result or error, or a stanza error — what is sent is one stanza "
+               "of type result or error to the requester with the request's id (helper_reply_is_always_result_or_error, "
+               "helper_sends_exactly_one_reply); (4) before the session is "
                "established nothing is sent and the stream is closed (no_reply_before_session); (5) generated handler-site, "
                "claim-predicate and default-set tables equal the model's. NOT proved: which result/error payload a manager "
                "sends beyond type + defined condition; eventual reply when the application defers its decision. Model tied to "
